@@ -175,7 +175,9 @@ static int io_read(char *ch)
 {
         CB_GUARD();
         W.reads++;
-        if (W.call < CALLS && S.rd_ok[W.call]) { *ch = (char)S.rd_ch[W.call]; return 1; }
+        /* a finite stream: at most three bytes are available within one call (the code under test reads once per call;
+         * a variant that loops over io->read must still terminate here) */
+        if (W.call < CALLS && S.rd_ok[W.call] && W.reads <= 3 * (W.call + 1)) { *ch = (char)S.rd_ch[W.call]; return 1; }
         return 0;
 }
 static int io_write(char ch)
@@ -618,18 +620,24 @@ static void scen_run(void)
         }
         if (!evt_writes_buffer(USTATE)) {
 #if SEP
-                for (i = 0; i < UB + 1; i++)
+                for (i = 0; i < UB + 1; i++) {
                         CHK(C03, G_ubuf[i] == SNAP_ubuf[i], "event buffer modified although the event FSM is not formatting");
+                        CHK(C11, G_ubuf[i] == SNAP_ubuf[i], "event buffer modified although the event FSM is not formatting");
+                }
 #else
                 for (i = 0; i < BUFTOTAL; i++)
-                        if (i >= cc)
+                        if (i >= cc) {
                                 CHK(C03, G_buf[i] == SNAP_buf[i], "event half of the shared buffer modified although the event FSM is not formatting");
+                                CHK(C11, G_buf[i] == SNAP_buf[i], "event half of the shared buffer modified although the event FSM is not formatting");
+                        }
 #endif
         }
         if (cmd_never_writes_buffer(STATE)) {
                 for (i = 0; i < BUFTOTAL; i++)
-                        if (i < cc)
+                        if (i < cc) {
                                 CHK(C03, G_buf[i] == SNAP_buf[i], "command buffer modified by a state that does not own it");
+                                CHK(C11, G_buf[i] == SNAP_buf[i], "command buffer modified by a state that does not own it");
+                        }
         }
 
         /* ---- C06: handler arguments ----------------------------------------------------------------- */
@@ -780,6 +788,20 @@ static void scen_run(void)
                 for (i = 0; i < RINGCAP; i++)
                         CHK(C13, u->unsolicited_cmd_buffer[i].cmd == p->unsolicited_cmd_buffer[i].cmd && u->unsolicited_cmd_buffer[i].type == p->unsolicited_cmd_buffer[i].type,
                             "a queued event was rewritten by cat_service");
+                /* "exactly once": the event in progress ends - a terminal handler code or the end of its last line brings the
+                 * event FSM back to idle (otherwise its handler runs again and the events behind it wait forever) */
+#ifdef UHRET
+                if (USTATE == CAT_UNSOLICITED_STATE_READ_LOOP || USTATE == CAT_UNSOLICITED_STATE_TEST_LOOP) {
+                        int uc13 = (UHRET);
+                        if (uc13 == CAT_RETURN_STATE_DATA_OK)
+                                CHK(C13, u->state == CAT_UNSOLICITED_STATE_FLUSH_IO_WRITE_WAIT && u->write_state_after == CAT_UNSOLICITED_STATE_AFTER_FLUSH_OK,
+                                    "event handler returned DATA_OK but the event is not on its way to its (single) final line");
+                        else if (uc13 != CAT_RETURN_STATE_DATA_NEXT && uc13 != CAT_RETURN_STATE_NEXT)
+                                CHK(C13, u->state == CAT_UNSOLICITED_STATE_IDLE, "a terminal event-handler code did not end the event in progress (it would be processed again)");
+                }
+#endif
+                if (USTATE == CAT_UNSOLICITED_STATE_AFTER_FLUSH_OK || USTATE == CAT_UNSOLICITED_STATE_AFTER_FLUSH_RESET)
+                        CHK(C13, u->state == CAT_UNSOLICITED_STATE_IDLE, "the event in progress did not end after its final line");
         }
 
         /* ---- C14: hold ------------------------------------------------------------------------------- */
@@ -837,6 +859,10 @@ static void scen_run(void)
         if (pre_uflush && W.writes == 0)
                 CHK(C15, o->unsolicited_fsm.state != CAT_UNSOLICITED_STATE_FLUSH_IO_WRITE || o->unsolicited_fsm.write_state != SNAP.unsolicited_fsm.write_state ||
                          o->unsolicited_fsm.write_buf != SNAP.unsolicited_fsm.write_buf, "event flush at a section end made no progress");
+        /* waiting for input is not work: a reading state whose read is refused, with no event queued or in progress, reports OK
+         * (otherwise a caller polling "until OK" spins forever on an unterminated line) */
+        if (cmd_reads_input(STATE) && !S.rd_ok[0] && USTATE == CAT_UNSOLICITED_STATE_IDLE && SNAP.unsolicited_fsm.unsolicited_cmd_buffer_items_count == 0)
+                CHK(C15, r == CAT_STATUS_OK, "BUSY although the only thing missing is input (no byte available, no event, nothing to emit)");
         if (!cmd_reads_input(STATE) && STATE != CAT_STATE_HOLD && STATE != CAT_STATE_FLUSH_IO_WRITE && STATE != CAT_STATE_FLUSH_IO_WRITE_WAIT &&
             STATE != CAT_STATE_WRITE_LOOP && STATE != CAT_STATE_RUN_LOOP && STATE != CAT_STATE_READ_LOOP && STATE != CAT_STATE_TEST_LOOP)
                 CHK(C15, o->state != SNAP.state || o->index != SNAP.index || o->cmd_type != SNAP.cmd_type || o->position != SNAP.position || o->var != SNAP.var,
